@@ -199,7 +199,7 @@ var predicateMachinery = []string{
 func init() {
 	register(&propDef{
 		ID:          "C01",
-		Explanation: "Decides two structural necessary conditions of the path law over ALL programs and inputs: (SEQ) no evaluator-internal *sequence is ever stored inside a value, handed to a callable/reflect mutator, or returned by eval/Eval/a built-in — a symbolic may-wrap-a-sequence dataflow over every reflect.Value/interface SSA value of the module with the asSequence refinement; (NF) every kind-specific reflect accessor (Len/Index/MapKeys/MapIndex/Field...) in the path machinery is applied to a provably resolved value (jtypes.Resolve / arrayify / MakeSlice results, interprocedural). Breaking either makes a path over arrays nested in arrays return an internal object or panic. (W) the path machinery (eval, evalPath, evalPathStep, evalOverArray/Sequence, evalName*, wildcard/descendant walkers, the sequence type) writes no memory that existed before the evaluation and keeps no cache: a path's value depends on the expression and the input only. NOT decided: order, one-level flattening, singleton collapse, keep-array marker as values.",
+		Explanation: "Decides two structural necessary conditions of the path law over ALL programs and inputs: (SEQ) no evaluator-internal *sequence is ever stored inside a value, handed to a callable/reflect mutator, or returned by eval/Eval/a built-in — a symbolic may-wrap-a-sequence dataflow over every reflect.Value/interface SSA value of the module with the asSequence refinement; (NF) every kind-specific reflect accessor (Len/Index/MapKeys/MapIndex/Field...) in the path machinery is applied to a provably resolved value (jtypes.Resolve / arrayify / MakeSlice results, interprocedural). Breaking either makes a path over arrays nested in arrays return an internal object or panic. (W) the path machinery (eval, evalPath, evalPathStep, evalOverArray/Sequence, evalName*, wildcard/descendant walkers, the sequence type) writes no memory that existed before the evaluation and keeps no cache: a path's value depends on the expression and the input only. NOT decided: order, one-level flattening, singleton collapse, keep-array marker as values. (LASTSTEP) a per-item result leaves evalPathStep unwrapped only under the last-step flag, which evalPath sets for the last index of the step list; (PARENS) inside jparse the contents of a parenthesised block are read only by BlockNode's own methods, so no optimisation splices a parenthesised sub-path into the enclosing path.",
 		Rule:        commonRule,
 		Fixtures:    []string{"seq", "nf", "w"},
 		Run: func(c *Ctx, r *Result) {
@@ -224,7 +224,7 @@ func init() {
 	})
 	register(&propDef{
 		ID:          "C02",
-		Explanation: "Decides the NF discipline in the predicate machinery (evalPredicate, applyFilter, arrayify, normalizeArray and the evalPath->evalPathStep->evalOverArray chain a filter path enters with an array item): every reflect accessor receiver is provably resolved on every path, interprocedurally. This is the clause behind the two panics the property names (x[$$.idx], arr[o] on [[1]]). (W) evalPredicate, applyFilter and their helpers write no pre-existing memory and keep no state between calls. (LISTFLOW) in evalPredicate every filter is applied to arrayify of the step's own value or of the survivor list the previous applyFilter returned, and the result is no value or normalizeArray of those survivors — never an element picked out of the list, which arrayify would mistake for the list when it is itself an array. NOT decided: floor/negative index arithmetic, boolean casting, number-array detection, step-local vs whole-path attachment (value-level).",
+		Explanation: "Decides the NF discipline in the predicate machinery (evalPredicate, applyFilter, arrayify, normalizeArray and the evalPath->evalPathStep->evalOverArray chain a filter path enters with an array item): every reflect accessor receiver is provably resolved on every path, interprocedurally. This is the clause behind the two panics the property names (x[$$.idx], arr[o] on [[1]]). (W) evalPredicate, applyFilter and their helpers write no pre-existing memory and keep no state between calls. (LISTFLOW) in evalPredicate every filter is applied to arrayify of the step's own value or of the survivor list the previous applyFilter returned, and the result is no value or normalizeArray of those survivors — never an element picked out of the list, which arrayify would mistake for the list when it is itself an array. NOT decided: floor/negative index arithmetic, boolean casting, number-array detection, step-local vs whole-path attachment (value-level). (F2I) the numeric predicate is floored (math.Floor) before it becomes an integer position: no float-to-integer conversion in the predicate machinery truncates.",
 		Rule:        commonRule,
 		Fixtures:    []string{"nf", "w"},
 		Run: func(c *Ctx, r *Result) {
@@ -241,7 +241,7 @@ func init() {
 	})
 	register(&propDef{
 		ID:          "C03",
-		Explanation: "Decides four structural clauses of the operator table: (FIN) every float produced by evalNumericOperator/evalNegation/evalRange passes two-sided math.IsInf and math.IsNaN tests whose true edges leave by an error return before it is boxed into a value (bit-set dataflow {Inf,NaN} with dominance-based guards); (GUARD) evalRange's size test 0<=size<=10,000,000 dominates the allocation and the constant is the property's; (LAZY) in evalConditional Then/Else are evaluated only on the true/false edge of jlib.Boolean(cond) and no path runs both; (TAB) every switch over NumericOperator/ComparisonOperator/BooleanOperator in the evaluator covers all declared constants, and each parser led is registered for exactly the tokens its switch handles, so no 'unrecognised operator' panic is reachable; (OPTAB) the value each operator's case computes, read from the SSA of the three operator evaluators: + - * / are the float operation on (left, right) in that order, % is math.Mod(left, right), = != < <= > >= in go through eq/lt/lte/in with the documented negations and operand order, and/or are the short-circuit of jlib.Boolean(left), jlib.Boolean(right), & boxes conv(left) + conv(right) on every success path with conv = \"\" for a missing value and jlib.String otherwise, lt compares strictly left with right, and evalNumericOperator contains no arithmetic outside those five cases (no fast path). NOT decided: operand kind checking and the error chosen for each kind combination; eq's deep comparison.",
+		Explanation: "Decides four structural clauses of the operator table: (FIN) every float produced by evalNumericOperator/evalNegation/evalRange passes two-sided math.IsInf and math.IsNaN tests whose true edges leave by an error return before it is boxed into a value (bit-set dataflow {Inf,NaN} with dominance-based guards); (GUARD) evalRange's size test 0<=size<=10,000,000 dominates the allocation and the constant is the property's; (LAZY) in evalConditional Then/Else are evaluated only on the true/false edge of jlib.Boolean(cond) and no path runs both; (TAB) every switch over NumericOperator/ComparisonOperator/BooleanOperator in the evaluator covers all declared constants, and each parser led is registered for exactly the tokens its switch handles, so no 'unrecognised operator' panic is reachable; (OPTAB) the value each operator's case computes, read from the SSA of the three operator evaluators: + - * / are the float operation on (left, right) in that order, % is math.Mod(left, right), = != < <= > >= in go through eq/lt/lte/in with the documented negations and operand order, and/or are the short-circuit of jlib.Boolean(left), jlib.Boolean(right), & boxes conv(left) + conv(right) on every success path with conv = \"\" for a missing value and jlib.String otherwise, lt compares strictly left with right, and evalNumericOperator contains no arithmetic outside those five cases (no fast path). NOT decided: operand kind checking and the error chosen for each kind combination; eq's deep comparison. (MAPEQ) a hand-written comparison of two maps compares sizes and presence; (F2I) the range size is the difference of two bounds tested to be integers; (NEGFOLD) the optimiser turns a negation only into a NegationNode or a folded number literal, so the operand check of unary minus is never optimised away.",
 		Rule:        commonRule,
 		Fixtures:    []string{"fin", "guard", "tab", "w", "shape"},
 		Run: func(c *Ctx, r *Result) {
@@ -278,7 +278,7 @@ func init() {
 	})
 	register(&propDef{
 		ID:          "C04",
-		Explanation: "Extracts the complete parameter set of the Pratt parser from the current source — lexeme->token tables (symbols1, symbols2, lookupKeyword), the binding-power rows and the formula initBindingPowers applies to them, lookupBp, the single binding of the parser's lookup fields, the loop test of parseExpression, each led's recursive right-binding power, the nud/led tables, the lexeme->token->operator-constant->String() chain, and the allowRegex flag of every token consumption that is followed by an operand or by a return to the Pratt loop — and compares it with the precedence relation written in the property (10 rows, all left-associative except := and the greedy else branch). For the token set of the language these parameters determine the parse of every operator chain, so a one-row move, a flipped associativity, a <= in the loop, a swapped operator constant or a wrong regex flag is caught for all ordered pairs, not the sampled ones. (W) nothing under Compile/Parse writes memory that existed before the call: the parse is a function of the text (no cache of parsed sub-expressions or parser state shared between calls). NOT decided: the path/predicate/group re-association done by optimize.",
+		Explanation: "Extracts the complete parameter set of the Pratt parser from the current source — lexeme->token tables (symbols1, symbols2, lookupKeyword), the binding-power rows and the formula initBindingPowers applies to them, lookupBp, the single binding of the parser's lookup fields, the loop test of parseExpression, each led's recursive right-binding power, the nud/led tables, the lexeme->token->operator-constant->String() chain, and the allowRegex flag of every token consumption that is followed by an operand or by a return to the Pratt loop — and compares it with the precedence relation written in the property (10 rows, all left-associative except := and the greedy else branch). For the token set of the language these parameters determine the parse of every operator chain, so a one-row move, a flipped associativity, a <= in the loop, a swapped operator constant or a wrong regex flag is caught for all ordered pairs, not the sampled ones. (W) nothing under Compile/Parse writes memory that existed before the call: the parse is a function of the text (no cache of parsed sub-expressions or parser state shared between calls). NOT decided: the path/predicate/group re-association done by optimize. (PARENS) parentheses are opaque to the tree builder: BlockNode contents are read only by BlockNode's own methods.",
 		Rule:        commonRule,
 		Fixtures:    []string{"tab"},
 		Run: func(c *Ctx, r *Result) {
@@ -310,7 +310,7 @@ func init() {
 	})
 	register(&propDef{
 		ID:          "C11",
-		Explanation: "Thin but genuine necessary conditions, decided by table comparison: jparse.jsonEscapes equals RFC 8259 section 7's two-character escape table exactly (no missing, changed or extra letter); true/false/null are lexed as boolean/boolean/null and parseBoolean maps each word to its own value; evalArray has an *ArrayNode case that appends a nested array literal as a unit without iterating over it; (LIT) literal values flow unchanged from token to result: the number nud stores the first result of strconv.ParseFloat(token text, 64) — the nearest double — only after testing its error, the string nud stores unescape(token text) only after testing its ok result, NegationNode.optimize folds a negated literal into the arithmetic negation of the operand's value (so -0 keeps its sign), and the functions eval dispatches number, string and boolean nodes to return reflect.ValueOf(node.Value) on every path (no cache or table in between). (W) nothing under Compile writes pre-existing memory and the literal evaluators (evalNumber/String/Boolean/Null/Array/Object) write only memory of the evaluation. NOT decided: \\u decoding, surrogate pairing, number scanning.",
+		Explanation: "Thin but genuine necessary conditions, decided by table comparison: jparse.jsonEscapes equals RFC 8259 section 7's two-character escape table exactly (no missing, changed or extra letter); true/false/null are lexed as boolean/boolean/null and parseBoolean maps each word to its own value; evalArray has an *ArrayNode case that appends a nested array literal as a unit without iterating over it; (LIT) literal values flow unchanged from token to result: the number nud stores the first result of strconv.ParseFloat(token text, 64) — the nearest double — only after testing its error, the string nud stores unescape(token text) only after testing its ok result, NegationNode.optimize folds a negated literal into the arithmetic negation of the operand's value (so -0 keeps its sign), and the functions eval dispatches number, string and boolean nodes to return reflect.ValueOf(node.Value) on every path (no cache or table in between). (W) nothing under Compile writes pre-existing memory and the literal evaluators (evalNumber/String/Boolean/Null/Array/Object) write only memory of the evaluation. NOT decided: \\u decoding, surrogate pairing, number scanning. (ESCSKIP) in scanString the rune after a backslash is consumed before the scan continues, so an escaped quote or backslash is not taken for the end of the literal.",
 		Rule:        commonRule,
 		Fixtures:    []string{"tab"},
 		Run: func(c *Ctx, r *Result) {
@@ -404,7 +404,7 @@ func init() {
 	})
 	register(&propDef{
 		ID:          "C13",
-		Explanation: "Decides: the functions implementing order-by and $sort write only memory of the same evaluation and hand none to unreviewed library code (W restricted to the sort machinery: no pooled or cached sort records); every sort call reachable from Eval is a stable variant (sort.SliceStable/sort.Stable); every comparator handed to them returns only constants, strict < / > tests, or calls that return only those (no <=, >=, ==, negation, lte) — a non-strict less function breaks stability for ties; the slice sorted in place is allocated by the same evaluation; jlib.merge calls the user comparator as swap(left head, right head) and takes the left head on a false result, so the hand-written merge sort is stable. Go's unstable sort is an insertion sort below 12 items, so none of this is visible to the suite. NOT decided: permutation/order/error clauses as values, key typing, direction per term.",
+		Explanation: "Decides: the functions implementing order-by and $sort write only memory of the same evaluation and hand none to unreviewed library code (W restricted to the sort machinery: no pooled or cached sort records); every sort call reachable from Eval is a stable variant (sort.SliceStable/sort.Stable); every comparator handed to them returns only constants, strict < / > tests, or calls that return only those (no <=, >=, ==, negation, lte) — a non-strict less function breaks stability for ties; the slice sorted in place is allocated by the same evaluation; jlib.merge calls the user comparator as swap(left head, right head) and takes the left head on a false result, so the hand-written merge sort is stable. Go's unstable sort is an insertion sort below 12 items, so none of this is visible to the suite. NOT decided: permutation/order/error clauses as values, key typing, direction per term. (MISSLAST) the order-by comparator answers false when the first item's key is absent and true when the second item's is: items without the key go last; (SORTTYPES) mixed number/string keys of one term are detected whatever lies between them.",
 		Rule:        commonRule,
 		Fixtures:    []string{"sort"},
 		Run: func(c *Ctx, r *Result) {
@@ -428,7 +428,7 @@ func init() {
 	})
 	register(&propDef{
 		ID:          "C15",
-		Explanation: "Decides: (W) the array, higher-order and aggregate built-ins of jlib/array.go, hof.go and aggregate.go write only memory they allocated themselves — no append into the spare capacity of an argument, no in-place reversal or sort — so a result never shares storage with an argument or with another result; (HASH) no function under $distinct (and nothing else under Eval) uses a map with interface keys indexed by a dynamically typed value (panics on arrays/objects/functions) or an fmt.Sprint rendering as the identity of a value (conflates {\"a\":1} and {\"a\":\"1\"}); and FIN for the aggregate functions $sum/$max/$min/$average (no unguarded overflow). NOT decided: every other definitional clause (visit order, fold direction, permutation), which are value-level.",
+		Explanation: "Decides: (W) the array, higher-order and aggregate built-ins of jlib/array.go, hof.go and aggregate.go write only memory they allocated themselves — no append into the spare capacity of an argument, no in-place reversal or sort — so a result never shares storage with an argument or with another result; (HASH) no function under $distinct (and nothing else under Eval) uses a map with interface keys indexed by a dynamically typed value (panics on arrays/objects/functions) or an fmt.Sprint rendering as the identity of a value (conflates {\"a\":1} and {\"a\":\"1\"}); and FIN for the aggregate functions $sum/$max/$min/$average (no unguarded overflow). NOT decided: every other definitional clause (visit order, fold direction, permutation), which are value-level. (MAPEQ) a hand-written map equality under $distinct compares sizes and presence.",
 		Rule:        commonRule,
 		Fixtures:    []string{"hash", "fin", "w", "shape"},
 		Run: func(c *Ctx, r *Result) {
@@ -488,7 +488,7 @@ func init() {
 	})
 	register(&propDef{
 		ID:          "C16",
-		Explanation: "Decides: (UNIT) in Substring, Pad, positionOfNthRune and abs every integer addition, comparison, string-slice bound and positionOfNthRune argument keeps code-point counts (utf8.RuneCountInString, the built-ins' integer parameters) apart from byte offsets (len(string), strings.Index*, range keys, decode widths) — a len(s) where a rune count is meant passes every ASCII sample; (CODEC) $base64encode/$base64decode reference the same base64 encoding variable, $encodeUrlComponent/$decodeUrlComponent use a matching escape/unescape pair of net/url, and $length is bound to utf8.RuneCountInString; (W) the string built-ins are functions of their arguments: no write to pre-existing memory and no process-wide cache in $substring*, $pad, $trim, $contains, $split, $join, $match, $replace and the encode/decode functions or their jlib callees. NOT decided: the laws as string equalities; $split/$join/$replace/$trim.",
+		Explanation: "Decides: (UNIT) in Substring, Pad, positionOfNthRune and abs every integer addition, comparison, string-slice bound and positionOfNthRune argument keeps code-point counts (utf8.RuneCountInString, the built-ins' integer parameters) apart from byte offsets (len(string), strings.Index*, range keys, decode widths) — a len(s) where a rune count is meant passes every ASCII sample; (CODEC) $base64encode/$base64decode reference the same base64 encoding variable, $encodeUrlComponent/$decodeUrlComponent use a matching escape/unescape pair of net/url, and $length is bound to utf8.RuneCountInString; (W) the string built-ins are functions of their arguments: no write to pre-existing memory and no process-wide cache in $substring*, $pad, $trim, $contains, $split, $join, $match, $replace and the encode/decode functions or their jlib callees. NOT decided: the laws as string equalities; $split/$join/$replace/$trim. (SEPLEN) no loop of the string functions decides whether to write a separator by testing the accumulated output for emptiness while it also writes elements that may be empty.",
 		Rule:        commonRule,
 		Fixtures:    []string{"unit", "w", "shape"},
 		Run: func(c *Ctx, r *Result) {
@@ -768,7 +768,7 @@ func runPanics(c *Ctx, r *Result, rule string, reach *Reach, tabProved map[strin
 func init() {
 	register(&propDef{
 		ID:          "C09",
-		Explanation: "Decides the crash/hang classes that are visible in the shape of the code, over everything reachable from Eval in the module call graph: (NF) every kind-specific reflect accessor gets a provably resolved receiver (138 sites, interprocedural); (TAB) eval's type switch covers every node type the parser can emit and every operator-enum switch is exhaustive, so the 'unexpected node'/'unrecognised operator' panics are unreachable; (PANIC) every explicit panic under Eval is one of those or a listed exception; (LOOP) every loop under Eval has a recognised variant (range, counted towards an invariant bound, shrinking-suffix consumer, positive multiplicative scaling, or a reviewed entry) and every recursive SCC a reviewed structural descent; (GUARD) integer / and % have a dominating non-zero test, strconv.FormatInt bases are confined to [2,36], strings.Repeat counts are non-negative; (HASH) no interface-keyed map is indexed with a dynamically typed value; (IDX) every reflect.Value.Index gets an index proved within 0..Len-1; (BND) every native index and slice expression under Eval is in range: either the Go compiler's own prove pass removes its bounds check (asked with -d=ssa/check_bce on the current tree), or a difference-constraint proof over dominating comparisons, definitions and library post-conditions gives 0 <= low <= high <= len, or the unproved part is covered by a reviewed one-site invariant. (TA) every single-result type assertion is dominated by a reflect type test of the same value against a type variable whose initialiser denotes the asserted type, or asserts the success result of a function that only returns that type, or is a reviewed exception; (RO) the value of a struct field (Value.Field/FieldByName/FieldByIndex — possibly unexported, hence read-only for reflect) is only inspected until a CanInterface test, or the PkgPath test of the same field, has shown it usable, so function values and Go structs used as data cannot make reflect panic; (NILTYPE) no method is called on reflect.TypeOf(x) unless x is shown non-nil; (ZERO) a zero value is synthesised for a missing argument (reflect.Zero) only for optional parameter types, interface{} and reflect.Value, never for a named interface such as jtypes.Callable, whose nil value the built-ins would call; (ACYC) every store made through reflection into a data container (Value.Set/SetMapIndex) goes into a container allocated by the same activation or stores a scalar/zero Value, so Eval cannot make a value contain itself — the recursive walkers' descent arguments need finite depth. The transform's update store fails this and is a known finding. (KIND) every reflect.Value method with a kind or validity precondition (Len, Index, MapKeys, MapIndex, NumField, Field*, Float, Int, Bool, IsNil, Elem, Call, Type, Interface, CanInterface, Convert, Set, ...) gets a receiver whose possible kinds — computed interprocedurally over the module call graph in an own/resolved two-view lattice and refined by the dominating IsValid, == undefined, Kind() and jtypes-predicate tests — are all accepted by the method (interface/pointer kinds at the NF accessors being NF's obligation), or is a reviewed exception. NOT decided: nil interfaces used as values, reflect.Set on zero Values, stack depth, lt's own panic.",
+		Explanation: "Decides the crash/hang classes that are visible in the shape of the code, over everything reachable from Eval in the module call graph: (NF) every kind-specific reflect accessor gets a provably resolved receiver (138 sites, interprocedural); (TAB) eval's type switch covers every node type the parser can emit and every operator-enum switch is exhaustive, so the 'unexpected node'/'unrecognised operator' panics are unreachable; (PANIC) every explicit panic under Eval is one of those or a listed exception; (LOOP) every loop under Eval has a recognised variant (range, counted towards an invariant bound, shrinking-suffix consumer, positive multiplicative scaling, or a reviewed entry) and every recursive SCC a reviewed structural descent; (GUARD) integer / and % have a dominating non-zero test, strconv.FormatInt bases are confined to [2,36], strings.Repeat counts are non-negative; (HASH) no interface-keyed map is indexed with a dynamically typed value; (IDX) every reflect.Value.Index gets an index proved within 0..Len-1; (BND) every native index and slice expression under Eval is in range: either the Go compiler's own prove pass removes its bounds check (asked with -d=ssa/check_bce on the current tree), or a difference-constraint proof over dominating comparisons, definitions and library post-conditions gives 0 <= low <= high <= len, or the unproved part is covered by a reviewed one-site invariant. (TA) every single-result type assertion is dominated by a reflect type test of the same value against a type variable whose initialiser denotes the asserted type, or asserts the success result of a function that only returns that type, or is a reviewed exception; (RO) the value of a struct field (Value.Field/FieldByName/FieldByIndex — possibly unexported, hence read-only for reflect) is only inspected until a CanInterface test, or the PkgPath test of the same field, has shown it usable, so function values and Go structs used as data cannot make reflect panic; (NILTYPE) no method is called on reflect.TypeOf(x) unless x is shown non-nil; (ZERO) a zero value is synthesised for a missing argument (reflect.Zero) only for optional parameter types, interface{} and reflect.Value, never for a named interface such as jtypes.Callable, whose nil value the built-ins would call; (ACYC) every store made through reflection into a data container (Value.Set/SetMapIndex) goes into a container allocated by the same activation or stores a scalar/zero Value, so Eval cannot make a value contain itself — the recursive walkers' descent arguments need finite depth. The transform's update store fails this and is a known finding. (KIND) every reflect.Value method with a kind or validity precondition (Len, Index, MapKeys, MapIndex, NumField, Field*, Float, Int, Bool, IsNil, Elem, Call, Type, Interface, CanInterface, Convert, Set, ...) gets a receiver whose possible kinds — computed interprocedurally over the module call graph in an own/resolved two-view lattice and refined by the dominating IsValid, == undefined, Kind() and jtypes-predicate tests — are all accepted by the method (interface/pointer kinds at the NF accessors being NF's obligation), or is a reviewed exception. NOT decided: nil interfaces used as values, reflect.Set on zero Values, stack depth, lt's own panic. (KIND, argument clause) the values handed to Value.Set, reflect.Append and reflect.AppendSlice are never the zero Value; (TA P3) an element of a local slice is asserted to type T only when every store into that slice boxes a T; (SORTTYPES) the mixed-type error of a sort term is decided from a per-term record kept over all items and only ever set, so lt never sees a number and a string.",
 		Rule:        commonRule,
 		Fixtures:    []string{"nf", "guard", "hash", "tab", "loop", "bnd", "ta", "ro", "kind"},
 		Run: func(c *Ctx, r *Result) {
@@ -818,7 +818,7 @@ func init() {
 	})
 	register(&propDef{
 		ID:          "C18",
-		Explanation: "Decides: (LOOP) every loop reachable from $formatNumber/$formatBase/$round/$number/$string has a recognised variant — in particular FormatNumber's mantissa scaling loop multiplies a value that is provably positive on entry (math.Abs of a value tested non-zero), the clause whose absence made $formatNumber(0, \"0.0e0\") hang; (FIN) $power, $sqrt and $round cannot return ±Inf or NaN (two-sided IsInf/IsNaN guards dominate the returns; Sqrt's argument is tested non-negative); (GUARD) FormatBase's radix test admits exactly [2,36], strconv.FormatInt's domain, and dominates the call; strings.Repeat counts in the picture renderer are non-negative; (W) the number functions are functions of their arguments: nothing under $formatNumber/$formatBase/$round/$number/$power/$sqrt writes pre-existing memory or keeps a process-wide cache (e.g. of analysed pictures). NOT decided: rounding, shortest form, picture rendering as values.",
+		Explanation: "Decides: (LOOP) every loop reachable from $formatNumber/$formatBase/$round/$number/$string has a recognised variant — in particular FormatNumber's mantissa scaling loop multiplies a value that is provably positive on entry (math.Abs of a value tested non-zero), the clause whose absence made $formatNumber(0, \"0.0e0\") hang; (FIN) $power, $sqrt and $round cannot return ±Inf or NaN (two-sided IsInf/IsNaN guards dominate the returns; Sqrt's argument is tested non-negative); (GUARD) FormatBase's radix test admits exactly [2,36], strconv.FormatInt's domain, and dominates the call; strings.Repeat counts in the picture renderer are non-negative; (W) the number functions are functions of their arguments: nothing under $formatNumber/$formatBase/$round/$number/$power/$sqrt writes pre-existing memory or keeps a process-wide cache (e.g. of analysed pictures). NOT decided: rounding, shortest form, picture rendering as values. (VALIDALL) every success return of the picture processor lies behind the validation or the emptiness test of each sub-picture; (NUMGATE) strconv.ParseFloat in $number is gated by a package-level regular expression whose language, checked on a battery written from the property's grammar, is the number grammar; (F2I) $formatBase converts rounded values only.",
 		Rule:        commonRule,
 		Fixtures:    []string{"fin", "guard", "loop", "w"},
 		Run: func(c *Ctx, r *Result) {
@@ -1024,7 +1024,7 @@ const wAssume2 = "values registered with RegisterVars are data, not callables or
 func init() {
 	register(&propDef{
 		ID:          "C05",
-		Explanation: "Decides the frame condition behind repeatability for ALL programs, inputs and histories: no instruction reachable from Eval/EvalBytes/String writes memory that existed before the call — the compiled expression (AST nodes and their slices), package variables, the Expr, the shared built-in callables, or the input document. Every Store, MapUpdate, append/copy/delete and mutating library call (reflect Set*/SetMapIndex/Append*, sort.*, json decode) under the module call graph is an obligation; its target's provenance is computed interprocedurally (fresh allocations, polyvariant return summaries, call-site joins with per-dynamic-type filtering of interface receivers, field- and element-type-based load facts, evaluation-local types). With no such write, every memory cell that survives an Eval and is readable by a later one is unchanged, so an outcome is a function of (expression, input, bindings, clock, random source). CLOCK confines clock/random sources to the sanctioned ones. NOT decided: Go map iteration order effects (sanctioned by the property).",
+		Explanation: "Decides the frame condition behind repeatability for ALL programs, inputs and histories: no instruction reachable from Eval/EvalBytes/String writes memory that existed before the call — the compiled expression (AST nodes and their slices), package variables, the Expr, the shared built-in callables, or the input document. Every Store, MapUpdate, append/copy/delete and mutating library call (reflect Set*/SetMapIndex/Append*, sort.*, json decode) under the module call graph is an obligation; its target's provenance is computed interprocedurally (fresh allocations, polyvariant return summaries, call-site joins with per-dynamic-type filtering of interface receivers, field- and element-type-based load facts, evaluation-local types). With no such write, every memory cell that survives an Eval and is readable by a later one is unchanged, so an outcome is a function of (expression, input, bindings, clock, random source). CLOCK confines clock/random sources to the sanctioned ones. NOT decided: Go map iteration order effects (sanctioned by the property). The transform's pattern is evaluated against a deep copy made for this application (a partial copy would let updates reach the caller's document and change the next evaluation of the same input).",
 		Rule:        commonRule,
 		Fixtures:    []string{"w"},
 		Run: func(c *Ctx, r *Result) {
@@ -1047,7 +1047,7 @@ func init() {
 	})
 	register(&propDef{
 		ID:          "C06",
-		Explanation: "A data race needs a write to a location another goroutine can reach. Decides, for all schedules: (W) under each of the roots Eval/EvalBytes/String, Compile/MustCompile/Parse and package-level RegisterExts/RegisterVars, every write targets memory allocated by the same call — except the global registry, which (LOCK) is written only with globalRegistryMutex held for writing, read only with it held, never leaves the critical section (Compile copies it entry by entry) and is not referenced under Eval; every run-time-mutable package variable has such a guard; (NOGO) the library starts no goroutine and uses no unsafe/atomics/cgo; math/rand is used only through its internally locked package-level functions. Hence concurrent calls share only read-only memory. NOT decided: races inside user extensions; (*Expr).RegisterExts concurrent with Eval on the same Expr (not promised by the property).",
+		Explanation: "A data race needs a write to a location another goroutine can reach. Decides, for all schedules: (W) under each of the roots Eval/EvalBytes/String, Compile/MustCompile/Parse and package-level RegisterExts/RegisterVars, every write targets memory allocated by the same call — except the global registry, which (LOCK) is written only with globalRegistryMutex held for writing, read only with it held, never leaves the critical section (Compile copies it entry by entry) and is not referenced under Eval; every run-time-mutable package variable has such a guard; (NOGO) the library starts no goroutine and uses no unsafe/atomics/cgo; math/rand is used only through its internally locked package-level functions. Hence concurrent calls share only read-only memory. NOT decided: races inside user extensions; (*Expr).RegisterExts concurrent with Eval on the same Expr (not promised by the property). The transform's pattern is evaluated against a deep copy (a partial copy is shared memory written without a lock).",
 		Rule:        commonRule,
 		Fixtures:    []string{"w", "lock"},
 		Run: func(c *Ctx, r *Result) {
@@ -1115,7 +1115,7 @@ func init() {
 	})
 	register(&propDef{
 		ID:          "C20",
-		Explanation: "Decides the registry-visibility and registration-time clauses: (REG) in processExts/processVars every store into the registry map is dominated by the success edges of validName and newGoCallable/validVar applied to that entry; newEnv builds a child of baseEnv and binds $, then $now/$millis, then the expression's registry; updateRegistry only ranges over the map it is given. (LOCK) the global registry is accessed under its mutex and never escapes the critical section, so an Expr holds a per-key copy taken at Compile time and later package-level registrations cannot reach it; it is not referenced under Eval. (W) (*Expr).RegisterExts/RegisterVars write only their receiver's own registry and fresh memory; package-level registration writes only the locked global. NOT decided: the argument-conversion relation and the naming of errors (value-level).",
+		Explanation: "Decides the registry-visibility and registration-time clauses: (REG) in processExts/processVars every store into the registry map is dominated by the success edges of validName and newGoCallable/validVar applied to that entry; newEnv builds a child of baseEnv and binds $, then $now/$millis, then the expression's registry; updateRegistry only ranges over the map it is given. (LOCK) the global registry is accessed under its mutex and never escapes the critical section, so an Expr holds a per-key copy taken at Compile time and later package-level registrations cannot reach it; it is not referenced under Eval. (W) (*Expr).RegisterExts/RegisterVars write only their receiver's own registry and fresh memory; package-level registration writes only the locked global. NOT decided: the argument-conversion relation and the naming of errors (value-level). (HORDER) the EvalContextHandler hook is consulted before the UndefinedHandler hook sees the arguments; (CALLSEQ) the Go function is only invoked with validateArgTypes(validateArgCount(argv)), each error tested; (ZERO) a missing argument becomes a zero value only for Optional types, interface{} and reflect.Value; (ARGPOS) an ArgTypeError reports the index in the argument list plus one.",
 		Rule:        commonRule,
 		Fixtures:    []string{"w", "lock"},
 		Run: func(c *Ctx, r *Result) {
@@ -1140,7 +1140,7 @@ func init() {
 func init() {
 	register(&propDef{
 		ID:          "C08",
-		Explanation: "Decides the panic/hang classes of Compile that are visible in the shape of the code, for every input string: (ERR) every error value that is returned, thrown to Parse's recover, or stored in jparse is nil, a *jparse.Error, lexer.err, or the result of another jparse function (inductively the same), every Error literal carries a declared non-zero ErrType (all of which have messages, TAB), Parse's deferred closure turns exactly the *Error panics into (nil, err), Compile hands Parse's error on with a nil expression and MustCompile panics exactly on err != nil; (LEX) abstract interpretation of the lexer over a finite domain (cursor position, width typestate, one known first rune per cell of the partition induced by the lexer's own constants and tables, unknown runes afterwards): no rewind by a stale width (the double backup behind Compile(\"!é\") and Compile(\"[1.䑁]\")), and every token returned by next other than EOF/error has consumed a rune, for every first rune (the empty-token hang behind function($x)<!>{$x}); (LOOP/REC) every loop under Compile has a recognised variant — parser loops consume a token or panic per cycle, lexer loops read a rune and leave at eof, accept predicates reject eof — and every recursive SCC a reviewed descent; (TAB/PANIC) each led is registered for exactly the tokens its switch handles, so every explicit 'unexpected ...' panic under Compile is unreachable. (BND) every native index and slice expression under Compile is in range: its bounds check is removed by the Go compiler's prove pass, or a difference-constraint proof gives 0 <= low <= high <= len, or the unproved part is covered by a reviewed one-site invariant (the lexer's cursor invariant being the one LEX maintains) — the class of Compile(\"function($x)<(>{$x}\"), which sliced with -1. NOT decided, and said so: stack depth on deeply nested input.",
+		Explanation: "Decides the panic/hang classes of Compile that are visible in the shape of the code, for every input string: (ERR) every error value that is returned, thrown to Parse's recover, or stored in jparse is nil, a *jparse.Error, lexer.err, or the result of another jparse function (inductively the same), every Error literal carries a declared non-zero ErrType (all of which have messages, TAB), Parse's deferred closure turns exactly the *Error panics into (nil, err), Compile hands Parse's error on with a nil expression and MustCompile panics exactly on err != nil; (LEX) abstract interpretation of the lexer over a finite domain (cursor position, width typestate, one known first rune per cell of the partition induced by the lexer's own constants and tables, unknown runes afterwards): no rewind by a stale width (the double backup behind Compile(\"!é\") and Compile(\"[1.䑁]\")), and every token returned by next other than EOF/error has consumed a rune, for every first rune (the empty-token hang behind function($x)<!>{$x}); (LOOP/REC) every loop under Compile has a recognised variant — parser loops consume a token or panic per cycle, lexer loops read a rune and leave at eof, accept predicates reject eof — and every recursive SCC a reviewed descent; (TAB/PANIC) each led is registered for exactly the tokens its switch handles, so every explicit 'unexpected ...' panic under Compile is unreachable. (BND) every native index and slice expression under Compile is in range: its bounds check is removed by the Go compiler's prove pass, or a difference-constraint proof gives 0 <= low <= high <= len, or the unproved part is covered by a reviewed one-site invariant (the lexer's cursor invariant being the one LEX maintains) — the class of Compile(\"function($x)<(>{$x}\"), which sliced with -1. NOT decided, and said so: stack depth on deeply nested input. (OPTALL) in every optimize method a child taken from the receiver as it was parsed is never stored into a node, appended to a node list or returned without having gone through optimize(): only optimised nodes are in the tree Compile returns, which is what keeps the interim node types away from eval.",
 		Rule:        commonRule,
 		Fixtures:    []string{"loop", "tab", "bnd", "ta"},
 		Run: func(c *Ctx, r *Result) {
